@@ -207,23 +207,32 @@ def wire(index, rep, flow):
     ir = index.func(INT, "Interpreter.interpret_results")
     cf = index.func(INT, "Interpreter.calculate_feed_and_biofuels")
     call = [c for c in walk_no_nested(ir) if isinstance(c, ast.Call) and dotted(c.func) == "self.calculate_feed_and_biofuels"]
-    params = [a.arg for a in cf.args.args][1:]
-    ok = len(call) == 1 and len(call[0].args) == len(params)
+    # evaluated: the call as written in interpret_results (positional or keyword binding), with the extractor opaque; afterwards each
+    # Interpreter feed/biofuel attribute must be the like-named extracted series in percent fed
+    ok = len(call) == 1
+    selfobj = Obj(index.cls(INT, "Interpreter"), {}, "self")
     if ok:
-        for a, p in zip(call[0].args, params):
-            src = norm_src(a)  # extracted_results.<food>_<use>
-            food_use = src.split(".")[-1]
-            use = "biofuel" if p.endswith("_for_biofuel") else "feed"
-            food = p.replace("_used_for_biofuel", "").replace("_used_for_feed", "")
-            food = {"methane_scp": "scp", "cellulosic_sugar": "cell_sugar"}.get(food, food)
-            ok = ok and food_use == f"{food}_{use}"
-    rep.check(ok, rule, "interpreter:feed/biofuel-series-bound-by-position",
-              "the extracted feed/biofuel series are not passed to calculate_feed_and_biofuels in the order of its parameters", loc=loc(INT, ir))
-    asg = {s.targets[0].attr: norm_src(s.value) for s in cf.body if isinstance(s, ast.Assign) and isinstance(s.targets[0], ast.Attribute)}
-    want_map = {"cell_sugar": "cellulosic_sugar", "scp": "methane_scp", "seaweed": "seaweed", "outdoor_crops": "outdoor_crops", "stored_food": "stored_food"}
-    ok = all(asg.get(f"{a}_feed") == f"{p}_used_for_feed.in_units_percent_fed()" and
-             asg.get(f"{a}_biofuels") == f"{p}_used_for_biofuel.in_units_percent_fed()" for a, p in want_map.items())
-    rep.check(ok, rule, "interpreter:feed/biofuel-attributes", "an Interpreter feed/biofuel attribute is filled from a different food or use", loc=loc(INT, cf))
+        it_i = Interp()
+        it_i.classes = {"Interpreter": index.cls(INT, "Interpreter")}
+        exname = None
+        for n_ in ast.walk(call[0]):
+            if isinstance(n_, ast.Attribute) and isinstance(n_.value, ast.Name) and n_.attr.endswith(("_feed", "_biofuel")):
+                exname = n_.value.id
+        try:
+            it_i.eval(call[0], {"self": selfobj, exname or "extracted_results": Path(("ex",))})
+        except (Unsupported, Abort) as e:
+            raise AnalysisError(f"calculate_feed_and_biofuels outside the analysed fragment: {e}")
+    foods5 = ["cell_sugar", "scp", "seaweed", "outdoor_crops", "stored_food"]
+
+    def is_series(v, food, use):
+        return isinstance(v, Path) and v.parts == ("ex", f"{food}_{use}", "in_units_percent_fed()")
+
+    ok_pos = ok and all(is_series(selfobj.attrs.get(f"{f}_feed"), f, "feed") for f in foods5)
+    rep.check(ok_pos, rule, "interpreter:feed/biofuel-series-bound-by-position",
+              "an extracted feed series does not reach the Interpreter's like-named feed attribute (arguments and parameters of "
+              "calculate_feed_and_biofuels crossed)", loc=loc(INT, ir))
+    ok_b = ok and all(is_series(selfobj.attrs.get(f"{f}_biofuels"), f, "biofuel") for f in foods5)
+    rep.check(ok_b, rule, "interpreter:feed/biofuel-attributes", "an Interpreter feed/biofuel attribute is filled from a different food or use", loc=loc(INT, cf))
     rep.require_min(rule, 20)
 
 
